@@ -43,4 +43,11 @@ theorem src :
     Gen.Ed.src_vrf_isCanonicalY = Expect.Ed_src_vrf_isCanonicalY :=
   ⟨rfl, rfl, rfl, rfl, rfl, rfl, rfl, rfl, rfl, rfl, rfl, rfl, rfl, rfl, rfl, rfl, rfl, rfl, rfl, rfl, rfl⟩
 
+/-- everything else the package declares (imports, constants, types, variables, build constraints and the functions not
+pinned one by one) is unchanged too: no declaration of the modelled packages can change without a tie theorem failing. -/
+theorem rest :
+    Gen.Ed.rest_ed25519 = Expect.Ed_rest_ed25519 ∧
+    Gen.Ed.rest_vrf = Expect.Ed_rest_vrf :=
+  ⟨rfl, rfl⟩
+
 end Iota.Tie.Ed
